@@ -26,3 +26,6 @@ pub fn st_format(_a: core::fmt::Arguments<'_>) -> String { String::new() }
 // parking_lot: an uncontended lock never takes the slow path (single-threaded harness).
 pub fn never_bool(_a: &parking_lot::RawMutex, _b: Option<std::time::Instant>) -> bool { kani::assume(false); true }
 pub fn never_unit(_a: &parking_lot::RawMutex, _b: bool) { kani::assume(false); }
+
+// std::time::Instant::now reaches clock_gettime (foreign function): a fixed instant stands in
+pub fn st_instant_now() -> std::time::Instant { unsafe { core::mem::zeroed() } }
